@@ -80,7 +80,7 @@ Definition write_plain_ref (wres : nat -> Z * bool) (s : list member) (p : bytes
 
 (* Entry.printOut *)
 Definition print_out_ref (as1 as2 : member -> option wid) (fld : wid -> wid) (as3 : wid -> option wid)
-  (as_list : logwriter -> option (list member)) (as_ls : logwriter -> option wid)
+  (as_list : logwriter -> option (list member)) (as_ls : logwriter -> option wid) (wget : Z -> list member)
   (find : Z -> logwriter) (wres : nat -> Z * bool) (lvl : Z) (msg : bytes) (tr : list wevent) (k : nat) : po_result :=
   let w := find lvl in
   if lw_is_nil w then PoReturn tr k
